@@ -302,7 +302,9 @@ class KindInferenceMapper(Mapper):
         self.check = check
 
     def map_constant(self, expr):
-        if isinstance(expr, complex):
+        import numpy as np
+        # numpy.complex64 is not a subclass of the built-in complex
+        if isinstance(expr, (complex, np.complexfloating)):
             return Scalar(is_real_valued=False)
         else:
             return Scalar(is_real_valued=True)
